@@ -334,8 +334,20 @@ def observe(cfg, want):
             if A is not None:
                 v2a = v2a + A @ xs2.ravel()
             g_a = interior(v2a.reshape(full)) + alpha2 * (interior(xs2) - mid_a) / dt
-            P.solvePDE(v_a, [P.transientTerm(v_a, dt, al)] + sp_g(g_a))
-            obs["r_history_alpha"] = lift_sol(np.asarray(v_a._value), xs2, "r_history_alpha")
+            t_a = [P.transientTerm(v_a, dt, al)] + sp_g(g_a)
+            # the second system has another diagonal (alpha2/dt): the same guard as for the first one - a singular or
+            # ill-conditioned instance (alpha2/dt meeting an eigenvalue of -A) is outside "any non-singular coefficient
+            # choice" and is not judged
+            M_a = P.boundaryConditionsTerm(v_a.BCs)[0].copy()
+            for t in t_a:
+                if isinstance(t, tuple):
+                    M_a = M_a + t[0]
+                elif t.ndim != 1:
+                    M_a = M_a + t
+            cond_a = np.linalg.cond(M_a.toarray())
+            if np.isfinite(cond_a) and cond_a <= 1e5:
+                P.solvePDE(v_a, t_a)
+                obs["r_history_alpha"] = lift_sol(np.asarray(v_a._value), xs2, "r_history_alpha")
         # multi-step history with a boundary-KIND switch: one side is made periodic, a step is taken, the side
         # is switched back (nothing else is touched), and the next step must be the step of the configured
         # (non-periodic) problem again: target x* from the state the first step left behind
